@@ -49,6 +49,17 @@ Definition ok (c : casety) : nat :=
   else if Nat.eqb (length res) (length expected) then 0 else 3.           (* pairs that are no crossing *)
 '''
 
+OK_F = r'''
+(* case: crossings certified from BOTH operand orders, the pairs one order returned *)
+Definition casety : Type := (list (Qc * Qc) * list (Qc * Qc))%type.
+Definition e4 : Qc := @E4@.
+Definition hits (e : Qc * Qc) (res : list (Qc * Qc)) : nat :=
+  length (filter (fun uu => qclose e4 (fst e) (fst uu) && qclose e4 (snd e) (snd uu)) res).
+Definition ok (c : casety) : nat :=
+  let '(expected, res) := c in
+  if existsb (fun e => Nat.eqb (hits e res) 0) expected then 1 else 0.
+'''
+
 OK_B = r'''
 From Bignums Require Import BigQ.
 From SVP Require Import Model.Bezier Model.Isect Model.IsectExec.
@@ -433,6 +444,66 @@ def run_E(rep, K, tmp, rng, n, secs, only=None):
     return len(cases), errors, stats
 
 
+# ----------------------------------------------------------------- F
+def run_F(rep, K, tmp, rng, n, secs):
+    """Bezier-Bezier pairs on an integer grid, BOTH operand orders.  The exact number of crossings of
+    two curves is not decided here (no exact solver for curve-curve pairs); the reference is the
+    union of what the two orders report, each member certified as a transversal crossing strictly
+    inside both curves (residual <= 1e-6 x size, tangent angle >= 6 degrees, parameters in
+    (1e-3, 1-1e-3), no other reported crossing within 1e-2): every such crossing must be reported by
+    EACH order."""
+    items = [(a, b, {'family': 'integer-grid-witness'}) for a, b in ic.SKIP_WITNESSES]
+    for i in range(n):
+        r = ic.integer_bezier_pair(rng)
+        if r:
+            items.append((r[0], r[1], {'family': 'integer-grid'}))
+    cases, meta = [], []
+    stats = collections.Counter()
+    for d1, d2, m in items:
+        s1, s2 = ic.mkseg(d1), ic.mkseg(d2)
+        st1, v1 = ic.guarded(lambda: s1.intersect(s2), secs)
+        st2, v2 = ic.guarded(lambda: s2.intersect(s1), secs)
+        if st1 != 'ok' or st2 != 'ok':
+            stats['F:skipped (timeout / exception)'] += 1
+            continue
+        r12 = ic.norm_result(v1); r21 = [(b, a) for a, b in ic.norm_result(v2)]
+        size = ic.pair_size(s1, s2)
+        cl = []
+        for tt in r12 + r21:
+            if not any(abs(c[0] - tt[0]) < 1e-4 and abs(c[1] - tt[1]) < 1e-4 for c in cl):
+                cl.append(tt)
+        expected = []
+        for c in cl:
+            if not (1e-3 < c[0] < 1 - 1e-3 and 1e-3 < c[1] < 1 - 1e-3):
+                continue
+            if abs(s1.point(c[0]) - s2.point(c[1])) > 1e-6 * size:
+                continue
+            if ic.tangent_angle_deg(s1, c[0], s2, c[1]) < 6:
+                continue
+            if any(o is not c and abs(o[0] - c[0]) < 1e-2 and abs(o[1] - c[1]) < 1e-2 for o in cl):
+                continue
+            expected.append(c)
+        stats['F:pairs'] += 1
+        stats['F:certified crossings'] += len(expected)
+        for name, res in (('seg1.intersect(seg2)', r12), ('seg2.intersect(seg1)', r21)):
+            cases.append('(%s, %s)' % (ic.pairs_term(expected), ic.pairs_term(res)))
+            meta.append((d1, d2, expected, res, m, name, size))
+    fails, errors = common.run_cases(tmp, '', 'casety', OK_F.replace('@E4@', qc(1e-4)), cases, shard=100, prefix='f')
+    for idx, code in fails:
+        d1, d2, expected, res, m, name, size = meta[idx]
+        lost = [e for e in expected if not any(abs(x[0] - e[0]) < 1e-4 and abs(x[1] - e[1]) < 1e-4 for x in res)]
+        tt = lost[0] if lost else (0.5, 0.5)
+        K.add(miss_key(d1, d2, 'missed', tt),
+              'C12: %s of a %s pair (%s) does not report the transversal crossing at (t1,t2) = (%.9g, %.9g) that the other '
+              'operand order reports (residual <= 1e-6 x size, angle >= 6 deg); returned %s'
+              % (name, kinds_label(d1, d2), m['family'], tt[0], tt[1], res[:6]),
+              (replay_pair(d1, d2, {'crossing': list(tt), 'returned': res[:20], 'family': m['family'], 'call': name})
+               if name.startswith('seg1') else
+               replay_pair(d2, d1, {'crossing': [tt[1], tt[0]], 'returned': [(b, a) for a, b in res[:20]],
+                                    'family': m['family'], 'call': 'seg1.intersect(seg2) [operands as stored here]'})), size)
+    return len(cases), errors, stats
+
+
 # ----------------------------------------------------------------- B
 def general_position(bez, l0, l1):
     """float pre-filter of the input domain (the exact count is decided in Coq):
@@ -802,11 +873,13 @@ def run(rep, tier, seed, replay=None):
         nD, eD = run_D(rep, K, tmp, rng, (150 if quick else 2000) * boost)
         # nearly axis-parallel lines x unrotated arcs (drawn last: the streams above are unchanged)
         nE, eE, sE = run_E(rep, K, tmp, rng, (80 if quick else 1500) * boost, secs)
-        for e in eA + eB + eC + eD + eE:
+        # integer-grid Bezier-Bezier pairs, both operand orders (drawn last)
+        nF, eF, sF = run_F(rep, K, tmp, rng, (45 if quick else 1500) * boost, secs)
+        for e in eA + eB + eC + eD + eE + eF:
             rep.violation('C12 case file failed to evaluate', {'kind': 'cases', 'error': e}, found_input=False, key='cases-error')
         K.flush()
-        stats = dict(sA); stats.update(sB); stats.update(sC); stats.update(sE)
-        rep.cov['evaluations'] = nA + nB + nC + nD + nE
+        stats = dict(sA); stats.update(sB); stats.update(sC); stats.update(sE); stats.update(sF)
+        rep.cov['evaluations'] = nA + nB + nC + nD + nE + nF
         rep.cov['traces_validated_against_impl'] = nB + nD
         rep.cov['distinct_nontrivial'] = nA + nB
         rep.cov['rule'] = ('A: constructed transversal crossings (all 16 ordered kind pairs, two arcs only circular+unrotated; '
@@ -821,7 +894,7 @@ def run(rep, tier, seed, replay=None):
         rep.cov['samples'] = [{'seg1': repr(ic.mkseg(d1)), 'seg2': repr(ic.mkseg(d2)), 'constructed_crossings': cr,
                                'family': m['family']} for d1, d2, cr, m in itemsA[:3]]
         rep.cov['case_counts'] = {'A_constructed_crossings': nA, 'B_exact_counts': nB, 'C_path': nC, 'D_polyroots_lists': nD,
-                                  'E_near_axis_parallel_arc_line': nE}
+                                  'E_near_axis_parallel_arc_line': nE, 'F_integer_grid_both_orders': nF}
         if info['agree_failed'] and not rep.violations:
             rep.violation('agreement lemma(s) %s no longer check' % info['agree_failed'],
                           {'kind': 'agreement', 'lemmas': info['agree_failed'], 'file': 'coq/GenAgree/Isect.v'},
